@@ -721,6 +721,35 @@ def rule_membership_answers(ctx, kind=None):
                                     if contains and lk == "FULL" and ((k["bool"] is True) == c.is_true()):
                                         ok = True
                 if not ok:
+                    # loop form: `for a in &args { if ext.contains(a) { return (true, ..) } } (false, ..)`
+                    t_ok = f_ok = False
+                    for s in b.sites():
+                        nd = s.node
+                        if s.si is None or nd["k"] != "assign" or nd["dst"]["l"] != 0 or nd["rv"]["k"] != "aggregate" or nd["rv"]["agg"]["kind"] != "tuple":
+                            continue
+                        k = op_const(nd["rv"]["ops"][0])
+                        if k is None or "bool" not in k:
+                            continue
+                        cont = []
+                        for c in conditions(b, s.bb):
+                            if c.is_discr:
+                                continue
+                            for o in origins(b, c.place, transparent=()):
+                                if o.kind == "call" and callee_decl(o.data) == "core::slice::contains":
+                                    full = False
+                                    for oo in origins(b, o.site.node["args"][1], transparent=("core::ops::deref::Deref::deref",)):
+                                        if oo.kind == "call" and callee_decl(oo.data) == "core::iter::traits::iterator::Iterator::next" and tags.list_kind(prog, b, oo.site.node["args"][0], accept_list_params(b)) == "FULL":
+                                            full = True
+                                    cont.append((c.is_true(), full))
+                        if k["bool"] is True and cont and all(t and f for t, f in cont):
+                            t_ok = True
+                        if k["bool"] is False and not cont and not b.in_loop(s.bb):
+                            f_ok = True  # after the loop: no listed argument was found in the set
+                        if k["bool"] is False and cont:
+                            t_ok = False  # a `false` decided on one listed argument: not the disjunction
+                            break
+                    ok = t_ok and f_ok
+                if not ok:
                     # the status is computed by a private helper of the solver that is handed the whole list (a loop with a flag, ..): not followed
                     hs = []
                     for cs in b.calls():
